@@ -107,6 +107,16 @@ func (e *Exec) callWith0(f *frame, in ssa.Instruction, cc *ssa.CallCommon, fnv V
 	}
 	if cc.IsInvoke() {
 		recv := fnv
+		if e.specDepth == 0 && e.pure == 0 && e.s.sortOf(cc.Value.Type()) == "Iface" && recv.DynT == nil {
+			// a method call on a nil interface value panics: execution continues only for a non-nil receiver
+			// (under nopanic this is an obligation)
+			nn := "(not (= (if_tag " + recv.T + ") 0))"
+			if e.nopanic {
+				e.checkCond(f, "nil", nn, &g, in)
+			} else {
+				g = e.nameBool("g", and(g, nn))
+			}
+		}
 		if recv.Dyn != nil && recv.DynT != nil {
 			if m := e.eng.prog.LookupMethod(recv.DynT, cc.Method.Pkg(), cc.Method.Name()); m != nil {
 				return e.callStatic(f, in, m, append([]Val{*recv.Dyn}, args...), nil, rt, h, g)
